@@ -41,7 +41,9 @@ def gen_env_cfg(rng, *, multi=None, big=False, padding=None, positive=True, huge
         "builder": rng.choice(BUILDERS),
         "features": gen_features(rng),
         "reward": rng.choice(["makespan", "idle"]),
-        "reward_by_default": rng.random() < 0.5,  # makespan reward through the environment's default argument (a shared object)
+        "reward_by_default": rng.random() < 0.5,
+        "set_reward_before_reset": rng.random() < 0.2,
+        "render": rng.random() < 0.08,  # makespan reward through the environment's default argument (a shared object)
         "updater": None if rng.random() < 0.5 else {"rm": rng.random() < 0.5, "rj": rng.random() < 0.5},
         "filter": rng.choice(["default", "dominated", "none"]),
         "use_padding": (rng.random() < 0.8) if padding is None else padding,
@@ -193,6 +195,9 @@ class EnvWorld:
         try:
             if self.multi:
                 self.generator = make_generator(cfg["gen"])
+                if cfg.get("render"):
+                    self.render_config = {"gif_config": {"fps": 2}, "partial_gantt_chart_plotter_config": {"cmap": "tab10"}}
+                    self.kw = dict(self.kw, render_mode="save_gif", render_config=self.render_config)
                 self.env = MultiJobShopGraphEnv(instance_generator=self.generator, graph_initializer=self.builder, **self.kw)
             else:
                 self.inst = build(cfg["instance"])
@@ -447,6 +452,11 @@ def multi_config_oracle(w, when):
         want_cols.append(f["t"])
     got_parts = [type(p).__name__ for p in s.composite_observer.feature_observers]
     ctx.check(len(got_parts) == len(want_cols), "multi_env_keeps_config", lambda: f"{when}: feature observers {got_parts} for configs {want_cols}", field="features")
+    if cfg.get("render"):
+        import copy
+        want_rc = {"gif_config": {"fps": 2}, "partial_gantt_chart_plotter_config": {"cmap": "tab10"}}
+        ctx.check(w.env.render_config == want_rc and dict(s.gantt_chart_creator.gif_config) == want_rc["gif_config"], "multi_env_keeps_config",
+                  lambda: f"{when}: render configuration is {w.env.render_config} / gif_config {dict(s.gantt_chart_creator.gif_config)}, constructed with {want_rc}", field="render_config")
     gen = cfg["gen"]
     nj, nm = len(w.jobs), w.model.nm
     ctx.check(gen["num_jobs"][0] <= nj <= gen["num_jobs"][1], "multi_env_instance_in_ranges", lambda: f"{when}: instance has {nj} jobs, generator range {gen['num_jobs']}")
@@ -471,6 +481,37 @@ def reward_oracles(w, reward, when):
                   lambda: f"{when}: step() returned reward {reward!r}, reward function emitted {r[-1] if r else None!r}", reward=name)
 
 
+def render_episode(w, ctx):
+    """env.render() at the end of an episode (GIF of the finished schedule), with a tiny stub plotter, in a
+    scratch directory; what it does to later episodes is judged at the next reset."""
+    import os
+    import shutil
+    import tempfile
+    import warnings
+    import matplotlib.pyplot as plt
+
+    def plot(schedule, makespan=None, available_operations=None, current_time=None):
+        fig = plt.figure(figsize=(0.2, 0.2), dpi=20)
+        fig.patch.set_facecolor((schedule.num_scheduled_operations / 255, 0.2, 0.2))
+        return fig
+
+    tmp = tempfile.mkdtemp(prefix="jslsim-")
+    cwd = os.getcwd()
+    try:
+        os.chdir(tmp)
+        w.single.gantt_chart_creator.partial_gantt_chart_plotter = plot
+        with warnings.catch_warnings():
+            warnings.simplefilter("ignore")
+            w.env.render()
+        ctx.probe("episode_rendered")
+    except Exception as e:  # noqa: BLE001
+        raise Foreign("C20", f"render() raised {short_exc(e)}")
+    finally:
+        os.chdir(cwd)
+        plt.close("all")
+        shutil.rmtree(tmp, ignore_errors=True)
+
+
 def execute_env_case(case, ctx, oracles=("contract",)):
     cfg = case["cfg"]
     w = EnvWorld(cfg, ctx)
@@ -481,6 +522,17 @@ def execute_env_case(case, ctx, oracles=("contract",)):
         ctx.step = i
         kind = op[0]
         if kind == "env_reset":
+            if cfg.get("set_reward_before_reset") and w.multi and w.episodes == 1 and "rewards" in oracles:
+                # a reward function assigned through the public setter belongs to the running episode; the next
+                # reset builds the episode the constructor configured
+                from job_shop_lib.reinforcement_learning import IdleTimeReward, MakespanReward
+
+                cls = IdleTimeReward if cfg["reward"] == "makespan" else MakespanReward
+                try:
+                    w.env.reward_function = cls(w.disp)
+                    ctx.probe("reward_function_set_through_setter")
+                except Exception:  # noqa: BLE001 - e.g. the singleton guard: nothing to test then
+                    pass
             out = w.reset()
             if w.dead:
                 ctx.event(i, kind, "dead")
@@ -526,6 +578,8 @@ def execute_env_case(case, ctx, oracles=("contract",)):
                 action_space_oracle(w, when)
                 if done:
                     ctx.probe("episode_finished")
+                    if cfg.get("render") and w.multi and len(w.model.hist) <= 12:
+                        render_episode(w, ctx)
             if "rewards" in oracles:
                 reward_oracles(w, reward, when)
         elif kind == "env_invalid":
